@@ -25,7 +25,22 @@ Proof.
   - right. split; reflexivity.
   - left; reflexivity.
   - left; reflexivity.
-  - intros e H. injection H as <-. right. eexists. split; [vm_compute; reflexivity | reflexivity].
+  - intros e H. injection H as <-. apply err_ok_sendable. right. eexists. split; [vm_compute; reflexivity | reflexivity].
+Qed.
+
+(* an error whose data are not JSON is inside the domain as well (fix F16: they are left out) *)
+Definition ex_bad_rsp : jmsg :=
+  {| j_id := bs "18"; j_method := []; j_params := []; j_result := []; j_err := None;
+     j_error := Some {| we_code := 7%Z; we_msg := bs "no"; we_data := bs "{bad" |} |}.
+Example msg_ok_bad_data_nonvacuous :
+  msg_ok ex_bad_rsp /\
+  match enc_msgs true [ex_rsp; ex_bad_rsp] with Some b => line_safe b | None => false end = true.
+Proof.
+  split; [|vm_compute; reflexivity]. constructor; try reflexivity.
+  - right. split; reflexivity.
+  - left; reflexivity.
+  - left; reflexivity.
+  - intros e H. injection H as <-. right. intros q Hq. vm_compute in Hq. discriminate Hq.
 Qed.
 
 Example single_line_instance :
